@@ -6,7 +6,7 @@ reference: the "foreign key" that is used is the primary key of the owner.
  * owner.pets as a condition (non-empty) -> WHERE OwnerDAO.database_id (always true)
  * owner.pets == vet.patient -> JOIN VetDAO ON VetDAO.patient_id = OwnerDAO.database_id (ids of different tables)
 
-Run:  cd /tmp/hunt2/C07 && PYTHONPATH=/tmp/hunt2/C07/src:/tmp/hunt2/C07 /venv/bin/python HUNT/defect2.py
+Run:  cd /tmp/hunt2/C07 && PYTHONPATH=/repo/src:/tmp/hunt2/C07 /venv/bin/python HUNT/defect2.py
 Exits non-zero when the translated statement and the in-memory evaluation disagree (the defect is present).
 """
 import importlib, os, sys, tempfile, warnings
